@@ -31,7 +31,7 @@ def bounds(tier):
 
 
 def goals(tier):
-    return ["mixed-case-between-records", "region-lowered", "region-raised", "per-letter-overhang", "error-MissingModule", "error-DuplicateModules",
+    return ["spelling-in-another-container", "mixed-case-between-records", "region-lowered", "region-raised", "per-letter-overhang", "error-MissingModule", "error-DuplicateModules",
             "error-InvalidSequence", "typing-accepts", "typing-rejects", "alternating", "per-letter-equal-vector-overhangs", "ambiguity-code-N-in-either-case"]
 
 
@@ -83,10 +83,11 @@ def outcome_key(o):
     return (o.kind, o.exc_name)
 
 
-def run_strings(enz, strings, ids=None):
+def run_strings(enz, strings, ids=None, containers=None):
     M, V = gen.generic_classes(enz)
-    v = V(CircularRecord(Seq(strings[0]), id="vec"))
-    ms = [M(CircularRecord(Seq(x), id="mod%d" % i)) for i, x in enumerate(strings[1:])]
+    conts = containers or ["seq"] * len(strings)
+    v = V(gen.contained(strings[0], conts[0], "vec"))
+    ms = [M(gen.contained(x, conts[i + 1], "mod%d" % i)) for i, x in enumerate(strings[1:])]
     return asm.run_assemble(v, ms)
 
 
@@ -95,7 +96,7 @@ def compare(st, sub, enz, upper_strings, cased_strings, scn, ref_cache):
     if key not in ref_cache:
         ref_cache[key] = outcome_key(run_strings(enz, list(upper_strings)))
     ref = ref_cache[key]
-    got = outcome_key(run_strings(enz, cased_strings))
+    got = outcome_key(run_strings(enz, cased_strings, containers=scn.get("containers")))
     st.scenario(ref[0] if ref[0] != "error" else "error:" + ref[1], None)
     if any(s != s.upper() for s in cased_strings):
         st.nontrivial += 1
@@ -146,6 +147,10 @@ def run_unit(unit, st, tier):
         for combo in itertools.product(["U", "L", "A0", "A1"], repeat=k + 1):
             cased = [transform(s, t) for s, t in zip(up, combo)]
             compare(st, "assembly", enz, up, cased, dict(family="assembly", enz=enz, k=k, case=list(combo)), cache)
+            # the same spellings in records of the other containers (MutableSeq; fully annotated), all of them or the vector only
+            for conts in (["mutable"] * (k + 1), ["annotated"] * (k + 1), ["mutable"] + ["seq"] * k, ["seq"] + ["mutable"] * k):
+                compare(st, "assembly", enz, up, cased, dict(family="assembly", enz=enz, k=k, case=list(combo), containers=conts), cache)
+                st.goal("spelling-in-another-container")
             if len(set(combo)) > 1:
                 st.goal("mixed-case-between-records")
             if "A0" in combo or "A1" in combo:
